@@ -39,9 +39,9 @@ func NewTicker(d Duration) *Ticker { return vsched.NewTicker(d) }
 func After(d Duration) <-chan Time { return vsched.After(d) }
 func Sleep(d Duration)             { vsched.Sleep(d) }
 
-func Unix(sec, nsec int64) Time                      { return time.Unix(sec, nsec) }
-func ParseDuration(s string) (Duration, error)       { return time.ParseDuration(s) }
-func Parse(layout, value string) (Time, error)       { return time.Parse(layout, value) }
+func Unix(sec, nsec int64) Time                { return time.Unix(sec, nsec) }
+func ParseDuration(s string) (Duration, error) { return time.ParseDuration(s) }
+func Parse(layout, value string) (Time, error) { return time.Parse(layout, value) }
 func Date(y int, m Month, d, h, mi, s, ns int, l *Location) Time {
 	return time.Date(y, m, d, h, mi, s, ns, l)
 }
